@@ -12,6 +12,12 @@ Inductive gres (A : Type) :=
 | GPanic (site : N).
 Arguments GOk {A}. Arguments GPanic {A}.
 
+(** [Result<T, E>] for a C-like error enum [E] (its discriminant) *)
+Inductive rres (A : Type) :=
+| ROk (a : A)
+| RErr (code : N).
+Arguments ROk {A}. Arguments RErr {A}.
+
 Definition gbind {A B} (m : gres A) (f : A -> gres B) : gres B :=
   match m with
   | GOk a => f a
